@@ -69,6 +69,11 @@ def run_tlc(module, cfg, workdir=None, workers=1, timeout=900, env=None, extra=(
         e["JAVA_TOOL_OPTIONS"] = "-Xss256m -Xmx3g"
         if env:
             e.update(env)
+        # TLC unpacks its standard modules into a fresh directory under java.io.tmpdir on every start and never removes it: keep it
+        # inside the scratch directory of this run, which is removed afterwards
+        jt = os.path.join(workdir, "jtmp")
+        os.makedirs(jt, exist_ok=True)
+        e["JAVA_TOOL_OPTIONS"] = e["JAVA_TOOL_OPTIONS"] + " -Djava.io.tmpdir=" + jt
         cmd = ["timeout", str(timeout), "java", "-XX:+UseParallelGC", "-cp", TLA_JAR + ":/opt/veriftools/tla/*",
                "tlc2.TLC", "-workers", str(workers), "-metadir", os.path.join(workdir, "meta"),
                "-noGenerateSpecTE", "-config", cfg] + list(extra) + [module + ".tla"]
